@@ -111,6 +111,14 @@ pub fn icmp4_echo(ty: u8, ident: u16, seq: u16, data: &[u8]) -> Vec<u8> {
     m
 }
 
+/// (re)compute the ICMPv6 checksum of a message in place
+pub fn icmp6_fix(src: &Ip, dst: &Ip, m: &mut [u8]) {
+    m[2] = 0;
+    m[3] = 0;
+    let c = csum(&[&pseudo(src, dst, 58, m.len()), m]);
+    m[2..4].copy_from_slice(&c.to_be_bytes());
+}
+
 fn icmp6_finish(src: &Ip, dst: &Ip, mut m: Vec<u8>) -> Vec<u8> {
     let c = csum(&[&pseudo(src, dst, 58, m.len()), &m]);
     m[2..4].copy_from_slice(&c.to_be_bytes());
